@@ -30,6 +30,23 @@ let run () = iter_lines (fun line ->
     end;
     if kind = '1' && text <> "-" then begin
       let one = text_of_hex text in
+      (* the whole one-liner against the transcription of to_yaml_one_liner, and the reference reader
+         (C17_one_liner_reads_back) applied to what the implementation wrote *)
+      let dur_of s = if s = "-" then None else (match split_on '.' s with [a; b] -> Some (n_of_int (int_of_string a), n_of_int (int_of_string b)) | _ -> None) in
+      let flag k = (match get k with "-" -> None | "1" -> Some true | _ -> Some false) in
+      let cfg = { y_os = (match get "os" with "-" -> None | v -> Some (n_of_int (int_of_string v)));
+                  y_kc = flag "kc"; y_to = dur_of (get "to"); y_de = flag "de";
+                  y_sk = (match get "sk" with "-" -> None | v -> Some (z_of_int (int_of_string v)));
+                  y_sa = flag "sa";
+                  y_wa = (match dur_of (get "wa") with None -> None | Some d -> Some (d, (if wp = "-" then None else Some (text_of_hex (unx wp)))));
+                  y_env = (if env = "-" then [] else List.map (fun kv -> match split_on ':' kv with [k; v] -> (text_of_hex (unx k), text_of_hex (unx v)) | _ -> ([], [])) (split_on ',' env)) } in
+      if one_liner cfg <> one then report "DIFF:one-liner" "the one-line configuration is not the text the model of to_yaml_one_liner writes" line;
+      (match read_one_liner one with
+       | Some c when c = cfg -> ()
+       | Some _ -> report "DIFF:one-liner" "the reference reader reads the written one-line configuration back as a different configuration" line
+       | None -> report "DIFF:one-liner" "the reference reader cannot read the written one-line configuration" line);
+      (match cfg.y_to with Some (a, b) -> (match parse_duration (format_duration a b) with DOk (a', b') when a' = a && b' = b -> () | _ -> report "BAD" "model duration round trip" line) | None -> ());
+      if get "to" <> "-" && get "wa" <> "-" then bump "has:timeout+wait";
       (* scrut's own notation: environment mapping and wait path, against the model *)
       if env <> "-" then begin
         let pairs = List.map (fun kv -> match split_on ':' kv with [k; v] -> (text_of_hex (unx k), text_of_hex (unx v)) | _ -> ([], [])) (split_on ',' env) in
